@@ -264,6 +264,17 @@ theorem decode_digicodon_inverse :
     exact ⟨a, b, c, heq, by simpa using this⟩
   · cases this
 
+/-- BOUNDS OF `esl_gencode_GetTranslation` / `esl_gencode_IsInitiator`: for three codes `< Kp` they never fault
+    (`translation_spec`, `initiator_spec`); a first code `≥ Kp` (e.g. the sentinel 255) is read as an index into `degen[]`
+    at once: out of bounds. Their contract is "three valid digital residues"; the ORF machine only passes such
+    (`orf_stream_eq_spec`: hypothesis `∀ x ∈ d, x < nt.Kp`, which `esl_abc_Digitize` guarantees — C08). -/
+theorem translation_out_of_alphabet_faults (nt aa : Alphabet) (g : Gencode) (a b c : Nat) (ha : nt.degen.length ≤ a)
+    (hk : nt.K ≤ a) : getTranslation nt aa g a b c = none ∧ isInitiator nt g a b c = none :=
+  out_of_alphabet_faults nt aa g a b c ha hk
+
+example : (T.tables.head?.map fun t => (getTranslation A.dna A.amino (codeOf t) 255 0 0, getTranslation A.dna A.amino (codeOf t) 4 255 255)) =
+    some (none, some (-1)) := by decide +kernel
+
 /-- `esl_gencode_Compare` answers `eslOK` exactly for equal codes: same alphabet types, (if asked) same id and description,
     same 64 translations and same 64 initiator flags -/
 theorem compare_spec (n1 a1 n2 a2 : Nat) (g1 g2 : Gencode) (md : Bool) (h1 : CodeOK g1) (h2 : CodeOK g2) :
